@@ -127,7 +127,7 @@ class Ctx:
         # REAL executions exercised - an action that never fires was never bound to the code by this run
         cov = getattr(res, "coverage", None)
         if cov:
-            agg = self.cov.setdefault("spec_actions_taken", {})
+            agg = self.cov.setdefault("spec_actions_taken", {})      # (trace validation: counted on the first batches only)
             for k, v in cov.items():
                 agg[k] = agg.get(k, 0) + int(v)
 
